@@ -106,6 +106,10 @@ class BytesType:
 
     def __call__(self, I, x=b"", *a):
         from .interp import Obj
+        if isinstance(x, str):
+            if not a:
+                raise PyExc("TypeError", "string argument without an encoding")
+            return const(x.encode(a[0]))
         if isinstance(x, (int, SymInt)):
             n = x
             if is_sym(n):
@@ -495,6 +499,8 @@ def binop_model(I, op, a, b, inplace=False):
         return StrPieces(pa + pb)
     if isinstance(a, str) and tn == "Mult" and isinstance(b, int):
         return a * b
+    if isinstance(b, str) and tn == "Mult" and isinstance(a, int) and not isinstance(a, bool):
+        return a * b
     if isinstance(a, str) and tn == "Mod":
         return _opaque_str((a, b))
     if isinstance(a, list) and isinstance(b, list) and tn == "Add":
@@ -835,6 +841,8 @@ def method_of(I, o, name):
             return Builtin("bytes.fromhex", _fromhex)
     if isinstance(o, Builtin) and isinstance(o.fn, (IntType, BytesType)):
         return method_of(I, o.fn, name)
+    if isinstance(o, Builtin) and o.name == "bytearray" and name == "fromhex":
+        return Builtin("bytearray.fromhex", lambda I, s: ByteArr(_fromhex(I, s)))
     if isinstance(o, (int, SymInt)) and not isinstance(o, bool):
         if name == "to_bytes":
             return Builtin("int.to_bytes", lambda I, length=1, byteorder="big", signed=False: _to_bytes(I, o, length, byteorder, signed))
